@@ -78,3 +78,25 @@ package lib
 //@   ensures[digits] base == 16 && 0 <= i && i < 16777216 ==> (len(s) > 0 ==> s[0] == HexDigitCh(NibbleAt(i, len(s) - 1))) && (len(s) > 1 ==> s[1] == HexDigitCh(NibbleAt(i, len(s) - 2))) &&
 //@             (len(s) > 2 ==> s[2] == HexDigitCh(NibbleAt(i, len(s) - 3))) && (len(s) > 3 ==> s[3] == HexDigitCh(NibbleAt(i, len(s) - 4))) &&
 //@             (len(s) > 4 ==> s[4] == HexDigitCh(NibbleAt(i, len(s) - 5))) && (len(s) > 5 ==> s[5] == HexDigitCh(NibbleAt(i, len(s) - 6)))
+
+// ---------------------------------------------------------------------------------------------
+// Trusted UTF-8 decode spec for strings: `for i, ch := range s`, []rune(s) and utf8.DecodeRuneInString all
+// segment s the same way. RuneStart(s,k) is the byte offset of the k-th rune, RuneCount(s) the number of runes;
+// runeat/widthat are the rune decoded at a byte offset and its width (1..4, 1 for an invalid byte -> U+FFFD).
+// ---------------------------------------------------------------------------------------------
+//@ ghost func RuneCount(s string) int
+//@ ghost func RuneStart(s string, k int) int
+//@ axiom runestart-0: forall s string {RuneCount(s)} :: RuneStart(s, 0) == 0 && 0 <= RuneCount(s) && RuneCount(s) <= len(s) && RuneStart(s, RuneCount(s)) == len(s)
+//@ axiom runestart-step: forall s string, k int {RuneStart(s, k)} :: 0 <= k && k < RuneCount(s) ==> RuneStart(s, k+1) == RuneStart(s, k) + widthat(s, RuneStart(s, k)) && RuneStart(s, k) < len(s) && k <= RuneStart(s, k)
+//@ axiom runestart-mono: forall s string, j int, k int {RuneStart(s, j), RuneStart(s, k)} :: 0 <= j && j < k && k <= RuneCount(s) ==> RuneStart(s, j) < RuneStart(s, k)
+// the k-th rune of s
+//@ spec func RuneAtIdx(s string, k int) rune = runeat(s, RuneStart(s, k))
+// r holds exactly the decoded runes of s
+//@ spec func DecodeOf(r []rune, s string) bool = len(r) == RuneCount(s) && forall k int {r[k]} :: 0 <= k && k < len(r) ==> r[k] == RuneAtIdx(s, k)
+// rune index of a byte offset that is a rune boundary (or the end), -1 otherwise
+//@ spec func IsRuneIndexOf(s string, b int, k int) bool = (k >= 0 ==> k <= RuneCount(s) && RuneStart(s, k) == b) && (k < 0 ==> forall j int :: 0 <= j && j <= RuneCount(s) ==> RuneStart(s, j) != b)
+
+//@ lib func utf8.DecodeRuneInString(s string) (r rune, size int)
+//@   pure
+//@   ensures len(s) > 0 ==> r == runeat(s, 0) && size == widthat(s, 0)
+//@   ensures len(s) == 0 ==> r == 65533 && size == 0
